@@ -143,3 +143,62 @@ Example C05_close_chain_example :
   s_trace (serve r false) = [EIterClose; EWrapped; EUser 0; EUser 1; EUser 2].
 Proof. split; reflexivity. Qed.
 Print Assumptions C05_close_chain_example.
+
+(* ---------------------------------------------------------------- the close trace in every configuration *)
+(* the tightest true form of the close clause: what runs, in order, when the server closes the returned iterable.
+   Direct passthrough with a body (known finding direct-passthrough-callbacks): exactly the wrapped iterable's own
+   close and no entry of _on_close.  Everything else: exactly Response.close (the wrapped iterable's close, then every
+   entry of _on_close once in registration order), after the close of the encoding generator when there is one.
+   A change that loses or repeats any single callback in any configuration contradicts this equation *)
+Theorem C05_close_trace_exact : forall r is_head,
+  s_trace (serve r is_head) =
+    if bodyless is_head (r_code r) then response_close r
+    else if r_passthrough r then (if r_closable r then [EWrapped] else [])
+    else EIterClose :: response_close r.
+Proof. exact close_trace_exact. Qed.
+Print Assumptions C05_close_trace_exact.
+
+(* ---------------------------------------------------------------- body accessors agree on the body and its length *)
+Theorem C05_make_sequence_body : forall r,
+  body_bytes (make_sequence r) = body_bytes r /\ r_headers (make_sequence r) = r_headers r.
+Proof. exact make_sequence_body. Qed.
+Print Assumptions C05_make_sequence_body.
+
+(* set_data: the body is the encoded value and the stored Content-Length its number of bytes *)
+Theorem C05_set_data_length : forall r v,
+  body_bytes (set_data r v) = encode_item v /\
+  (r_auto_cl r = true ->
+   hd_getlist (r_headers (set_data r v)) CONTENT_LENGTH = [dec_of_Z (Z.of_nat (length (body_bytes (set_data r v))))]).
+Proof. exact set_data_agrees. Qed.
+Print Assumptions C05_set_data_length.
+
+(* freeze: same body bytes, buffered; Content-Length is their number; the callbacks are kept; the consumed iterable
+   is closed on the spot exactly when it can be closed (fix 17f1c6d) *)
+Theorem C05_freeze_length : forall etag r,
+  let r' := fst (freeze etag r) in
+  body_bytes r' = body_bytes r /\ r_is_seq r' = true /\ r_callbacks r' = r_callbacks r /\
+  hd_getlist (r_headers r') CONTENT_LENGTH = [dec_of_Z (Z.of_nat (length (body_bytes r')))] /\
+  snd (freeze etag r) = r_closable r.
+Proof. exact freeze_agrees. Qed.
+Print Assumptions C05_freeze_length.
+
+(* get_data / calculate_content_length (through _ensure_sequence / make_sequence / iter_encoded): the body bytes and
+   their number, or a refusal exactly for an unbuffered body in direct passthrough; headers untouched *)
+Theorem C05_accessors_agree : forall r,
+  match ensure_sequence r with
+  | Some r' =>
+      body_bytes r' = body_bytes r /\ r_headers r' = r_headers r /\
+      snd (calculate_content_length r) = Some (length (body_bytes r)) /\ snd (get_data r) = Some (body_bytes r)
+  | None =>
+      r_passthrough r = true /\ r_is_seq r = false /\ snd (calculate_content_length r) = None /\ snd (get_data r) = None
+  end.
+Proof. exact accessors_agree. Qed.
+Print Assumptions C05_accessors_agree.
+
+(* a Content-Length stored by set_data / freeze reaches the server unchanged for every status that may carry one *)
+Theorem C05_stored_content_length_kept : forall iri join cur r h x,
+  clean (r_headers r) -> get_wsgi_headers iri join cur r = (h, None) ->
+  hd_getlist (r_headers r) CONTENT_LENGTH = [x] -> bodyless false (r_code r) = false ->
+  hd_getlist h CONTENT_LENGTH = [x].
+Proof. exact stored_content_length_kept. Qed.
+Print Assumptions C05_stored_content_length_kept.
